@@ -410,6 +410,7 @@ def run(report, p):
 
     from .common import include_rules
 
+    include_rules(report, p, 'c06', ['R6.2'], "sequencenr of a chain / collection entry is xs:integer: `str(hash_list.generation_number)` is an integer literal only if every hash list is numbered before it is written (R11.2's lemma for that field)")
     include_rules(report, p, 'c15', ['R15.1'], 'a file that is published half-written (also when the run ends with an error) is not even well-formed')
     report.not_decided += ["the author e-mail pattern (user input)", "lexical validity of dates for all clock values", "identity constraints / substitution groups (none are used by these XSDs; checked at load)"]
     report.extra["manifest_template"] = mdoc.show()[:4000]
